@@ -63,7 +63,13 @@ type PtrD struct {
 	F func() uint64
 }
 
-var ptrTypes = []reflect.Type{reflect.TypeOf(PtrA{}), reflect.TypeOf(PtrB{}), reflect.TypeOf(PtrC{}), reflect.TypeOf(PtrD{})}
+// PtrE: the only reference is an unsafe.Pointer field.
+type PtrE struct {
+	N uint64
+	U unsafe.Pointer
+}
+
+var ptrTypes = []reflect.Type{reflect.TypeOf(PtrA{}), reflect.TypeOf(PtrB{}), reflect.TypeOf(PtrC{}), reflect.TypeOf(PtrD{}), reflect.TypeOf(PtrE{})}
 var ptrRelType = reflect.TypeOf(PtrRel{})
 
 func (t TypeSpec) IsPtr() bool { return t.Kind == "ptr" || t.Kind == "ptrrel" }
@@ -144,6 +150,10 @@ func FillerType(n int) reflect.Type {
 
 // ResType returns the n-th dynamic resource type.
 func ResType(n int) reflect.Type {
+	if n%11 == 5 && n > 4 {
+		// a resource type that is itself a pointer type, next to its element type (index n-1)
+		return reflect.PtrTo(ResType(n - 1))
+	}
 	return reflect.StructOf([]reflect.StructField{{Name: fmt.Sprintf("R%d", n), Type: reflect.TypeOf(uint64(0))}})
 }
 
